@@ -336,7 +336,7 @@ def check_sigma(ctx, fn, X, mu):
     ctx.check(R, pr[0] if pr else fn, "ln_prior = model.logp() - ln_likelihood", okp, "ln_prior = %s" % (A.unparse(pr[0].args[1]) if pr else None), key="ln_prior")
     # obs precedes logp so that the data term is included
     if lp:
-        ctx.check(R, lp[0], "logp includes the data term (obs defined first)", o.lineno < lp[0].lineno, "logp is taken before obs exists", key="logp-order", nontrivial=False)
+        ctx.check(R, lp[0], "logp includes the data term (obs defined first)", A.doc_index(o) < A.doc_index(lp[0]), "logp is taken before obs exists", key="logp-order", nontrivial=False)
 
 
 def check_init(ctx, fn, X):
